@@ -109,6 +109,10 @@ def source(env, fields, order):
 RET = re.compile(r"CallbackRetVal :: < '\w+ , (.*?) , T\s*(?:<[^()]*?>)? > :: construct \(cb_result , T :: V(\d+)\)")
 
 
+HEADER = re.compile(r"Logos < '\w+ > for T < (.*?) > \{ type Error")
+OPQ = re.compile(r'<P0asIterator>::Item|P0::Item')     # shapes that mention a parameter without being a parameter path
+
+
 def norm(s):
     return re.sub(r'\s+', '', s)
 
@@ -119,10 +123,12 @@ def tie(run, seed, n_random, log=print):
     for env, fields in cs:
         order = list(range(len(env)))
         srcs.append(source(env, fields, order))
-        qs.append('TYSUBST %s # %s' % (' ; '.join('-' if t is None else ' '.join(prefix(t)) for t in env), ' ; '.join(' '.join(prefix(f)) for f in fields)))
+        # (the concrete types of the parameters are asked for as well: they are the generic arguments of the impl header)
+        qs.append('TYSUBST %s # %s' % (' ; '.join('-' if t is None else ' '.join(prefix(t)) for t in env),
+                                       ' ; '.join(' '.join(prefix(f)) for f in list(fields) + [t for t in env if t is not None])))
     caps = P.run_capture(srcs, code=True)
     ans = P.run_lean(['CASE Y'] + ['Q ' + q for q in qs], nproc=4)
-    stats = dict(definitions=len(cs), agree=0, differ=0, with_reported_items=0, field_types_compared=0, nested_substitutions=0, samples=[])
+    stats = dict(definitions=len(cs), agree=0, differ=0, with_reported_items=0, field_types_compared=0, headers_compared=0, nested_substitutions=0, samples=[])
     for (env, fields), src, q, cap in zip(cs, srcs, qs, caps):
         a = ans.get('Y ' + q)
         if a is None or cap is None or a == 'BADQ':
@@ -149,6 +155,26 @@ def tie(run, seed, n_random, log=print):
                         ok = False
                         what = 'field type of V%d: model %s, derive %s' % (j, want, got[j])
                         break
+        if ok and cap.verdict == 'ACCEPT' and cap.codetext and all(t is not None for t in env):
+            # the impl header `impl .. Logos<'s> for T<ARGS>`: a declared parameter left in ARGS is an undeclared name there (D18);
+            # ARGS are the concrete types rewritten like the field types (model: getType on each item)
+            hm = HEADER.search(cap.codetext)
+            if hm:
+                stats['headers_compared'] += 1
+                args = norm(hm.group(1))
+                want = norm(', '.join(render(t) for t in types[len(fields):]))
+                left = sorted(set(re.findall(r'\bP\d\b', OPQ.sub('', args))))
+                if left:
+                    ok = False
+                    what = 'impl header mentions declared parameters: %s' % args
+                    run.violation('header-parameter', dict(definition=src, header_arguments=args, parameters_left=left,
+                                                           what='the derive accepts the definition and the impl header it generates names the type parameters %s, which are not declared there (E0425): the concrete type of a parameter mentions another parameter and is not rewritten in the header as it is in the variant fields' % ', '.join(left)),
+                                  key='typesubsthdr|' + src)
+                    stats['differ'] += 1
+                    continue
+                elif args != want:
+                    ok = False
+                    what = 'impl header arguments: model %s, derive %s' % (want, args)
         if ok:
             stats['agree'] += 1
         else:
